@@ -194,8 +194,15 @@ def run(ctx):
         if cx[0] != "ok":
             continue
         cx = cx[1]
-        hist = inflate(rng, cx, rng.randint(1, 2))
-        if not hist:
+        # refining such a curve can produce a control weight that is exactly zero (e.g. weights 1, -1/3, 1 and the node 3/4): the
+        # library cannot store that description (P_i = (wP)_i / w_i) and raises ZeroDivisionError — outside every stated domain
+        # (C04 speaks of positive weights); such draws are skipped
+        hh = impl(lambda: inflate(rng, cx, rng.randint(1, 2)))
+        if hh[0] != "ok" or not hh[1]:
+            ctx["rec"].count("skipped", "mixed-sign refinement not representable")
+            continue
+        hist = hh[1]
+        if any(w == 0 for w in (curve_state(cx)[2] or [])):
             continue
         X = curve_state(cx)
         ctx["rec"].count("family", "mixed-sign-minimal-weights")
